@@ -68,9 +68,12 @@ def bits_to_ticks(bits, grid):
     return int(d * (1 << grid))
 
 
-def gen_variant(r, k, tier):
+def gen_variant(r, k, tier, long_every=4):
     """program + run variant: how the run is meant to end"""
     heavy = (k % 5 == 0)
+    if long_every and k % long_every == long_every // 2:
+        # small event population, long duration: many GVT rounds, fossil collections and committed entries
+        return progen.gen_long_program(r), "pred", 0
     p = progen.gen_program(r, heavy_mem=heavy, zero_ts=(k % 4 == 1))
     variant, tend = "pred", 0
     if k % 7 == 3:
@@ -101,20 +104,21 @@ def parse_prog(text):
 
 
 def campaign(c, ctx, r, nprogs, mask, tier, want_stats=False, variants=("pred", "tend", "stop"), ranks_list=(1,),
-             extra_cfgs=None, jobs=4, watchdog=25, delays=(None,)):
+             extra_cfgs=None, jobs=4, watchdog=25, delays=(None,), long_every=4):
     """runs nprogs generated programs under several configurations; returns a list of run records"""
     runs, progs = [], []
     k = 0
     while len(progs) < nprogs:
-        p, variant, tend = gen_variant(r, k, tier)
+        p, variant, tend = gen_variant(r, k, tier, long_every)
         k += 1
         if variant not in variants:
             continue
         text = progen.render(p)
         pf = os.path.join(ctx["sd"], "prog%d.txt" % len(progs))
         open(pf, "w").write(text)
-        seqstop = S.run_seq(ctx["mexe"], pf, log=False, evalinit=True, stop=True)
+        # one reference run to exhaustion: LPs freeze once their predicate holds, so the final states are those at the stopping point too
         seqfull = S.run_seq(ctx["mexe"], pf, log=True, evalinit=True, stop=False)
+        seqstop = seqfull
         progs.append(dict(p=p, text=text, path=pf, variant=variant, tend=tend, seqstop=seqstop, seqfull=seqfull, idx=len(progs)))
     # corpus programs of this property first (minimised past failures and targeted scenarios), each with its own configurations
     import glob
@@ -123,8 +127,9 @@ def campaign(c, ctx, r, nprogs, mask, tier, want_stats=False, variants=("pred", 
         text = open(f).read()
         pcfg = [l for l in text.split("\n") if l.startswith("# run ")]
         pr = dict(p=parse_prog(text), text=text, path=f, variant="pred", tend=0, idx=len(progs),
-                  seqstop=S.run_seq(ctx["mexe"], f, log=False, evalinit=True, stop=True),
+                  seqstop=None,
                   seqfull=S.run_seq(ctx["mexe"], f, log=True, evalinit=True, stop=False))
+        pr["seqstop"] = pr["seqfull"]
         progs.append(pr)
         for ci, l in enumerate(pcfg):
             t = l.split()
@@ -170,7 +175,7 @@ def committed_per_lp(run):
     for rec in run["trace"]:
         if rec["kind"] in ("GVT", "GVT_DRAIN"):
             last_gvt[rec["rid"]] = rec["w"][0]
-        elif rec["kind"] == "COMMIT":
+        elif rec["kind"] == "COMMIT" and rec["type"] != 65534:      # the LP_INIT pseudo-event heads every history
             out.setdefault(rec["w"][0], []).append((bits_to_ticks(rec["ts"], grid), rec["type"], rec["size"], rec["fnv"]))
     for rec in run["trace"]:
         if rec["kind"] == "FINI_ENTRY":
@@ -186,3 +191,52 @@ def seq_per_lp(seq):
         f = l.split()
         d.setdefault(int(f[1]), []).append((int(f[2]), int(f[3]), int(f[4]), int(f[5], 0)))
     return d
+
+
+def lp_campaign(c, ctx, r, nprogs, mask, gvt_slack=(0, 0, 1, 3), steps=400):
+    """LP-level driver (harness/drv_lp.c): one worker hosts every LP; the driver plays the network (holds messages back and
+    returns them late) and announces legal GVT values.  Dense stragglers, anti-messages, rollbacks and fossil collections,
+    deterministic and single-threaded.  Returns run records like campaign()."""
+    okb, lgb, objs = V.build_impl(ctx["sd"])
+    okd, lgd, exe = V.build_driver(ctx["sd"], "drv_lp", objs, srcs=["app.c"])
+    if not (okb and okd):
+        c.violation("build-failed", dict(kind="build", log=(lgb + lgd)[-2000:]), False)
+        return []
+    runs = []
+    for k in range(nprogs):
+        p = progen.gen_program(r, lps=r.choice([1, 2, 3, 5, 8]), target=r.choice([20, 40, 100]), heavy_mem=(k % 4 == 0), zero_ts=(k % 3 == 0))
+        text = progen.render(p)
+        pf = os.path.join(ctx["sd"], "lpprog%d.txt" % k)
+        open(pf, "w").write(text)
+        seqfull = S.run_seq(ctx["mexe"], pf, log=True, evalinit=True, stop=False)
+        script = []
+        for _ in range(steps):
+            x = r.below(10)
+            if x < 4:
+                script.append("P %d" % r.range(1, 6))
+            elif x < 6:
+                script.append("H %d" % r.range(1, 3))
+            elif x < 8:
+                script.append("U %d" % r.below(50))
+            elif x < 9:
+                script.append("G %d" % r.choice(list(gvt_slack)))
+            else:
+                script.append("A")
+        script.append("E")
+        ck = r.choice([1, 1, 2, 3, 5, 0])
+        tf = os.path.join(ctx["sd"], "lptrace%d.txt" % k)
+        rc, so, se = V.run([exe, pf, str(ck)], inp="\n".join(script) + "\n", timeout=180,
+                           env={"VERIF_TRACE_FILE": tf, "VERIF_TRACE_MASK": str(mask), "VERIF_WATCHDOG": "120"})
+        res = S.SimResult()
+        res.rc, res.out, res.err = rc, so, se
+        res.final = [l for l in so.split("\n") if l.startswith("F ")]
+        res.returned = "RET 0" in so
+        res.hang = None
+        res.sanitizer = ("ERROR: AddressSanitizer" in se) or ("runtime error:" in se)
+        res.cmd = "harness/drv_lp <program> %d < script" % ck
+        tr = S.read_trace(tf)
+        if os.path.exists(tf):
+            os.remove(tf)
+        pr = dict(p=p, text=text, path=pf, variant="lp-level", tend=0, idx=1000 + k, seqfull=seqfull, seqstop=seqfull)
+        runs.append(dict(prog=pr, cfg=(1, ck, 0, 1), res=res, trace=tr, stats=None, delay=None, script=script))
+    return runs
